@@ -157,7 +157,7 @@ def handle (j : Json) : Except String Json := do
     -- elements, `us` the draws, `ws` the upstream gradient, `f` = 2·min(max|x|, 1), `imax` the index of the
     -- (first) arg-max element when max|x| ≤ 1 (`2 * m` depends on it: tangent 2·sign x_i), else null.
     -- Output i: (xq_i, d Σ_j w_j y_j / d x_i / w_i) — the whole group is differentiated w.r.t. x_i with the
-    -- tangent of `2 * m` fed in, so the model itself shows that the code's stop_gradient (95def59) keeps every
+    -- tangent of `2 * m` fed in, so the model itself shows that the code's stop_gradient (7f3e140) keeps every
     -- cross term at 0.
     let an ← getBool cfg "alpha_none"
     let ph := optBool j "phase"
